@@ -14,6 +14,7 @@ from schwifty import BIC, IBAN, registry
 from schwifty import exceptions as exc_mod
 from schwifty.bban import BBAN
 
+import regstore
 from export import tag, untag
 
 
@@ -52,7 +53,7 @@ def load(a):
         return {"res": tag(res)}
     finally:
         shutil.rmtree(d, ignore_errors=True)
-        registry._registry.pop(name, None)
+        regstore.store().pop(name, None)
 
 
 def strip_regex(table):
@@ -129,7 +130,7 @@ def lookup_model(a):
         banks.append({"country_code": T(b["cc"]), "bank_code": T(b["code"]),
                       "bic": (bic if bic or n % 2 else None), "primary": b["primary"],
                       "name": b["name"], "short_name": b["short"]})
-    saved = dict(registry._registry)
+    saved = dict(regstore.store())
     try:
         registry.save("bank", banks)
         registry.build_index("bank", index_name="bic", key="bic", accumulate=True)
@@ -137,8 +138,8 @@ def lookup_model(a):
         registry.build_index("bank", "country", key="country_code", accumulate=True)
         answers = [_answer(T(q[0]), T(q[1])) for q in a["queries"]]
     finally:
-        registry._registry.clear()
-        registry._registry.update(saved)
+        regstore.store().clear()
+        regstore.store().update(saved)
     return {"answers": answers}
 
 
